@@ -211,17 +211,21 @@ def main(argv=None):
     except ImportError as e:
         print('no rules for %s: %s' % (prop, e))
         return 2
+    broken = None
     try:
         mod.check(run)
     except AnalysisBroken as e:
-        print('ANALYSIS-BROKEN property=%s: %s' % (prop, e))
-        return 2
+        broken = 'ANALYSIS-BROKEN property=%s: %s' % (prop, e)
     except Exception:
         traceback.print_exc()
-        print('ANALYSIS-BROKEN property=%s: internal error in the checker (see traceback)' % prop)
+        broken = 'ANALYSIS-BROKEN property=%s: internal error in the checker (see traceback)' % prop
+    if broken is not None and not any(o['verdict'] == 'violated' for o in run.obs):
+        print(broken)
         return 2
+    # (an analysis that stopped half-way still reports the violations it had established - each stands on its own witness -
+    # and says that it is incomplete; without any it is analysis-broken, exit 2)
     configs = [config_label(REFERENCE)]
-    if a.tier == 'thorough' and replay is None:
+    if a.tier == 'thorough' and replay is None and broken is None:
         # the same rules under the other language levels / char signedness / default validation mode the headers are written for;
         # obligations are merged (the configuration becomes part of the case), instance floors are those of the reference run
         for cfg in THOROUGH:
@@ -283,7 +287,9 @@ def main(argv=None):
             if replay is not None and (o['rule'] != replay.get('rule') or o['subject'] != replay.get('subject')):
                 continue
             print('%-11s %-8s %s %s %s' % (o['verdict'], o['rule'], o['subject'][:100], o['disc'], o['detail'][:160]))
-    if replay is None and not os.environ.get('STV_NO_EVIDENCE'):
+    if broken is not None:
+        print(broken + ' (after the violations above had been established; the remaining rules did not run)')
+    if replay is None and not os.environ.get('STV_NO_EVIDENCE') and broken is None:
         level = getattr(mod, 'LEVEL', 'other')
         write_evidence(run, level, len(new), explanation=getattr(mod, 'EXPLANATION', ''))
     nd = sum(1 for o in run.obs if o['verdict'] == 'discharged')
@@ -291,6 +297,8 @@ def main(argv=None):
           (prop, a.tier, len(run.obs), nd, len(und), len(viol), len(viol) - len(new), time.time() - run.t0))
     for r, c in sorted(run.counts.items()):
         print('  instances %-40s %d' % (r, c))
+    if broken is not None and not new:
+        return 2
     return 1 if new else 0
 
 
